@@ -1,5 +1,24 @@
 import VlsModel.Drv.Common
-import VlsModel.Drv.Velocity
+import VlsModel.Drv.C01
+import VlsModel.Drv.C02
+import VlsModel.Drv.C03
+import VlsModel.Drv.C04
+import VlsModel.Drv.C05
+import VlsModel.Drv.C06
+import VlsModel.Drv.C07
+import VlsModel.Drv.C08
+import VlsModel.Drv.C09
+import VlsModel.Drv.C10
+import VlsModel.Drv.C11
+import VlsModel.Drv.C12
+import VlsModel.Drv.C13
+import VlsModel.Drv.C14
+import VlsModel.Drv.C15
+import VlsModel.Drv.C16
+import VlsModel.Drv.C17
+import VlsModel.Drv.C18
+import VlsModel.Drv.C19
+import VlsModel.Drv.C20
 /-
 `vlsmodel <model>`: reads one operation per line from stdin and prints one result line per
 operation.  A line `case <id>` resets the model to its initial state and is echoed, so that the
@@ -8,8 +27,26 @@ harness can align the two output streams per case.
 open VlsModel.Drv
 
 def registry : List (String × Model) :=
-  [ ("velocity", Velocity.model),
-    ("velocity_node", Velocity.nodeModel) ]
+  C01.models ++
+  C02.models ++
+  C03.models ++
+  C04.models ++
+  C05.models ++
+  C06.models ++
+  C07.models ++
+  C08.models ++
+  C09.models ++
+  C10.models ++
+  C11.models ++
+  C12.models ++
+  C13.models ++
+  C14.models ++
+  C15.models ++
+  C16.models ++
+  C17.models ++
+  C18.models ++
+  C19.models ++
+  C20.models
 
 partial def loop (m : Model) (h : IO.FS.Stream) (out : IO.FS.Stream) (s : m.σ) : IO Unit := do
   let line ← h.getLine
